@@ -82,6 +82,64 @@ def run(facts, cg):
     elif len({tuple(map(str, x)) for x in range_terms}) != 1:
         finding('R-RESUME', '-', 'sibling-range-terms', 'the two Range header constructions compute different bounds: %s' % range_terms)
 
+    # ---------------------------------------------------------------- R-EXACTLEN: read_at hands back no more than it was asked for
+    # try_init slices the header it gets by offsets computed from `size`; a reader that returns a longer buffer shifts
+    # nothing there, but every consumer that trusts `len() == size` (chunk splitting, header layout) is off.
+    FILL = ('read_buf', 'read', 'read_to_end', 'read_exact')
+    n_ra = 0
+    for b in facts.bodies.values():
+        par = facts.original.get(b.raw.get('parent') or '')
+        if not (b.raw.get('coroutine') and par is not None and par.q.endswith(' as bitar::archive_reader::ArchiveReader>::read_at')):
+            continue
+        n_ra += 1
+        rets = []
+        to_ret = {0}            # locals whose value is moved into the return place (async_trait: `let __ret = {..}; __ret`)
+        grew = True
+        while grew:
+            grew = False
+            for bi in b.live:
+                for st in b.blocks[bi]['stmts']:
+                    if st['k'] == 'assign' and not st['pl']['p'] and st['pl']['l'] in to_ret and st['rv']['k'] == 'use' \
+                            and st['rv']['op']['k'] in ('copy', 'move') and not st['rv']['op']['pl']['p'] and st['rv']['op']['pl']['l'] not in to_ret:
+                        to_ret.add(st['rv']['op']['pl']['l'])
+                        grew = True
+        for bi in b.live:
+            for st in b.blocks[bi]['stmts']:
+                if st['k'] == 'assign' and not st['pl']['p'] and st['pl']['l'] in to_ret and st['rv']['k'] == 'agg' and st['rv'].get('vname') == 'Ok':
+                    rets.append((bi, st))
+        if not rets:
+            finding('R-EXACTLEN', b.q, 'anchor', 'could not find what read_at returns on success (cannot decide)')
+        for bi, st in rets:
+            term = simplify(T.of_operand(b, st['rv']['ops'][0]))
+            cut = any(n[0] == 'call' and n[1].split('::')[-1] in ('split_to', 'truncate', 'slice', 'take') for n in walk(term))
+            root = b.base_of(st['rv']['ops'][0])
+            # follow freeze()/into() back to the buffer local
+            rl = _buffer_root(b, st['rv']['ops'][0])
+            fills = []
+            for cbi, ct in b.calls():
+                if 'q' in ct['callee'] and callee_q(ct).split('::')[-1] in FILL and len(ct['args']) > 1:
+                    if _buffer_root(b, ct['args'][1]) == rl:
+                        rterm = simplify(T.of_operand(b, ct['args'][0]))
+                        bounded = has_call(rterm, '::take') or callee_q(ct).endswith('read_exact')
+                        fills.append((ct['loc'], bounded))
+            # ... or the length of what is returned was compared with the requested size on the way (a single response body)
+            compared = False
+            dom = b.dominators().get(bi, ())
+            for cbi in b.live:
+                sw = b.blocks[cbi]['term']
+                if sw['k'] == 'switch' and cbi in dom:
+                    cterm = simplify(T.of_operand(b, sw['op']))
+                    if any(n[0] == 'binop' and n[1] in ('Lt', 'Le', 'Gt', 'Ge', 'Eq', 'Ne') and has_call(n, '::len') for n in walk(cterm)) or \
+                            (has_call(cterm, '::cmp') and has_call(cterm, '::len')):
+                        compared = True
+            inst = {'rule': 'R-EXACTLEN', 'function': b.q, 'returned': show(term)[:80], 'cut_to_size': cut, 'fills': fills, 'length_compared': compared}
+            instances.append(inst)
+            if not cut and not (fills and all(x[1] for x in fills)) and not (not fills and compared):
+                finding('R-EXACTLEN', b.q, 'unbounded-fill', 'read_at returns a buffer that is filled by reads which are not limited to the requested size '
+                        '(no take(size) / read_exact, no split_to/truncate before returning): it can hand back more bytes than asked for')
+    if n_ra < 2:
+        finding('R-EXACTLEN', '-', 'floor', 'expected the local and the HTTP read_at implementations, found %d (cannot decide)' % n_ra)
+
     # ---------------------------------------------------------------- R-RETRY
     for (b, bi, t) in cg.calls_to(SLEEP):
         if b.crate != 'bitar':
@@ -197,6 +255,21 @@ def run(facts, cg):
     if not any(i['rule'] == 'R-RUNS' for i in instances) or not any(i['rule'] == 'R-RUNS(adjacency)' for i in instances):
         finding('R-RUNS', '-', 'floor', 'http ChunkReader::poll_read / adjacent_reads not found (cannot decide)')
     return instances, findings
+
+
+def _buffer_root(b, op, depth=0):
+    """the local a buffer operand refers to, looking through borrows and by-value conversions (freeze, into, from)"""
+    if op['k'] not in ('copy', 'move') or depth > 8:
+        return None
+    base = b.base_of(op)
+    l = base[0]
+    ds = b.defs().get(l, [])
+    if len(ds) == 1 and ds[0][0] == 'call' and 'q' in ds[0][1]['callee'] and ds[0][1]['args'] and \
+            callee_q(ds[0][1]).split('::')[-1] in ('freeze', 'into', 'from', 'deref_mut', 'deref', 'as_mut', 'borrow_mut'):
+        return _buffer_root(b, ds[0][1]['args'][0], depth + 1)
+    if len(ds) == 1 and ds[0][0] == 'assign' and ds[0][1]['rv']['k'] == 'use' and ds[0][1]['rv']['op']['k'] in ('copy', 'move'):
+        return _buffer_root(b, ds[0][1]['rv']['op'], depth + 1)
+    return (l, tuple(x[1] for x in base[1]))
 
 
 def _shape(t):
